@@ -15,6 +15,10 @@ type Document struct {
 	file    *fs.File
 	scanner *scanner
 
+	// lexErr the error the scanner stopped at; nothing more can be read until
+	// the document is rewound.
+	lexErr error
+
 	lenOnce   sync.ErrOnceWithValue[uint]
 	checkOnce sync.ErrOnce
 
@@ -114,6 +118,10 @@ func (d *Document) check() error {
 }
 
 func (d *Document) nextLexeme() (lex lexeme.LexEvent, err error) {
+	if d.lexErr != nil {
+		return lexeme.LexEvent{}, d.lexErr
+	}
+
 	defer func() {
 		r := recover()
 		if r == nil {
@@ -125,6 +133,7 @@ func (d *Document) nextLexeme() (lex lexeme.LexEvent, err error) {
 			panic(r)
 		}
 		err = rErr
+		d.lexErr = rErr
 	}()
 
 	lex, ok := d.scanner.Next()
@@ -140,6 +149,7 @@ func (d *Document) nextLexeme() (lex lexeme.LexEvent, err error) {
 
 // rewind rewinds document to the beginning.
 func (d *Document) rewind() {
+	d.lexErr = nil
 	d.scanner = newScanner(d.file)
 	d.scanner.allowTrailingNonSpaceCharacters = d.allowTrailingNonSpaceCharacters
 }
